@@ -77,7 +77,6 @@ def c18_global_step(ctx, seq, unit):
     p = pybc()
     import py_ballisticcalc.trajectory_calc as tcpkg
     U = getattr(p.Unit, unit)
-    old = tcpkg._globalMaxCalcStepSizeFeet
     created = []
     try:
         tcpkg.reset_globals()
@@ -96,7 +95,7 @@ def c18_global_step(ctx, seq, unit):
                     except ValueError:
                         rejected = True
                     ctx.check('nonpositive_rejected', rejected)
-                    ctx.check_eq('rejected_value_leaves_global', tcpkg._globalMaxCalcStepSizeFeet, current)
+                    ctx.check_eq('rejected_value_leaves_global', tcpkg.get_global_max_calc_step_size() >> p.Unit.Foot, current, rel=1e-12)
                 elif op == 'reset':
                     tcpkg.reset_globals()
                     current = 0.5
@@ -111,7 +110,7 @@ def c18_global_step(ctx, seq, unit):
         if 'set_bad' not in seq:
             ctx.reach('check:nonpositive_rejected')
     finally:
-        tcpkg._globalMaxCalcStepSizeFeet = old
+        tcpkg.reset_globals()
 
 
 # ---------------------------------------------------------------------------------------------------------------------------------
